@@ -252,38 +252,47 @@ static Exclusion nondet_excl(void)
 /* Contract application by hand.  Both contracts are functional: the ensures clauses fix the size, the capacity, the
    identity (kept / fresh + old block freed) of the storage block, the returned iterator and every live element bit for
    bit; only the dead slots past the new size are unconstrained.  The wrapper asserts the shape part of the requires
-   clause (the snapshot part holds by construction: vec_snapshot has just run), then CONSTRUCTS that post-state: live
-   slots from the snapshot, dead slots nondeterministic.  Unit c17_vec_stubs proves that the constructed state satisfies
-   the very ensures macros the c17_vec_* units prove of the extracted List.h code (assume+havoc of the bit-cast macros
-   inside the unwound loops is what made goto-symex stall). */
+   clause (the snapshot part is about ghost state only), then CONSTRUCTS that post-state with constant-index element
+   moves (dead slots nondeterministic).  Unit c17_vec_stubs proves that the constructed state satisfies the very ensures
+   macros that the c17_vec_* units prove of the extracted List.h code.  (goto-instrument's --replace-call-with-contract
+   inside the unwound loops, and havoc+assume of the bit-cast macros, both made the verifier stall.) */
 static Exclusion *Vector_insert_g(Exclusions *v, Exclusion *p, const Exclusion x)
 {
-    vec_snapshot(v, p);
+    const size_t n = VSZ(v), cap = VCAP(v), idx = (size_t)NELEMS(OFF(p) - OFF(v->m_first));
+    Exclusion *const old = v->m_first;
+    g_n0 = n; g_cap0 = cap; g_idx = idx; g_first0 = old;
     __CPROVER_assert(VEC_INSERT_PRE_SHAPE(v, p), "precondition of the Vector::insert contract (proved by c17_vec_insert_c8/_c4)");
-    size_t cap1 = g_cap0;
-    if (GROWS(g_n0, g_cap0)) {
+    if (GROWS(n, cap)) {
         /* fresh block of 8: the harness allocated it up front (g_spare) and nothing else refers to it; one spare is enough,
            a block of 8 does not grow again while size < 8 (asserted).  Allocating inside the unwound loop would give the
            verifier one candidate object per unwinding for every later access. */
         __CPROVER_assert(g_spare != NULL, "bounded universe: at most one growth per operation");
-        Exclusion *nb = g_spare; g_spare = NULL;
-        free(v->m_first);                                                                 /* frees clause: the old block is released */
-        v->m_first = nb; v->m_end = nb + 8; cap1 = 8;
+        Exclusion *const nb = g_spare; g_spare = NULL;
+        for (size_t k = 0; k < VMAX; ++k) {
+            if (k > n) nb[k] = nondet_excl();
+            else if (k < idx) nb[k] = old[k];
+            else if (k == idx) nb[k] = x;
+            else nb[k] = old[k - 1];
+        }
+        free(old);                                                                        /* frees clause: the old block is released */
+        v->m_first = nb; v->m_end = nb + 8;
+    } else {
+        for (size_t k = VMAX - 1; k >= 1; --k)
+            if (k < cap) { if (k > n) old[k] = nondet_excl(); else if (k > idx) old[k] = old[k - 1]; }
+        for (size_t k = 0; k < VMAX; ++k) if (k == idx) old[k] = x;
     }
-    Exclusion *const a = v->m_first;
-    for (size_t k = 0; k < VMAX; ++k)
-        if (k < cap1) { if (k > g_n0) a[k] = nondet_excl(); else if (k < g_idx) a[k] = g_v0[k]; else if (k == g_idx) a[k] = x; else a[k] = g_v0[k - 1]; }
-    v->m_last = a + (g_n0 + 1);
-    return a + g_idx;
+    v->m_last = v->m_first + (n + 1);
+    return v->m_first + idx;
 }
 static Exclusion *Vector_erase_g(Exclusions *v, Exclusion *p)
 {
-    vec_snapshot(v, p);
-    __CPROVER_assert(VEC_ERASE_PRE_SHAPE(v, p), "precondition of the Vector::erase contract (proved by c17_vec_erase_c8/_c4)");
+    const size_t n = VSZ(v), cap = VCAP(v), idx = (size_t)NELEMS(OFF(p) - OFF(v->m_first));
     Exclusion *const a = v->m_first;
+    g_n0 = n; g_cap0 = cap; g_idx = idx; g_first0 = a;
+    __CPROVER_assert(VEC_ERASE_PRE_SHAPE(v, p), "precondition of the Vector::erase contract (proved by c17_vec_erase_c8/_c4)");
     for (size_t k = 0; k < VMAX; ++k)
-        if (k < g_cap0) { if (k + 1 >= g_n0) a[k] = nondet_excl(); else if (k < g_idx) a[k] = g_v0[k]; else a[k] = g_v0[k + 1]; }
-    v->m_last = a + (g_n0 - 1);
+        if (k < cap) { if (k + 1 >= n) a[k] = nondet_excl(); else if (k >= idx) a[k] = a[k + 1]; }
+    v->m_last = a + (n - 1);
     return p;
 }
 static uint8 Exclusion_outcode_g(const Exclusion *self, float val)
@@ -648,6 +657,7 @@ void h_vec_stubs(void)
     Exclusion x; x.open = nondet_bool();
     Exclusion *const p = a + idx;
     g_spare = malloc(8 * sizeof(Exclusion)); __CPROVER_assume(g_spare != NULL);
+    vec_snapshot(v, p);                                   /* content before the call, for the element clauses */
     if (ins) {
         Exclusion *r = Vector_insert_g(v, p, x);
         __CPROVER_assert(VEC_INSERT_POST_SHAPE(v, r), "stub insert: shape clause of the contract");
